@@ -10,4 +10,21 @@ package hashing
 func Hasher.Salted
 func Hasher.Do
 func Hasher.Len
+  ensures result >= 8 && result % 8 == 0
+  // ASSUMED: Len() is a constant attribute of a hasher (ghost hashlen)
+  assumes result == hashlen(self)
+
+func XorHasher.Len
+  props C04 C12
+  ensures result >= 8 && result % 8 == 0
+func KeyHasher.Len
+  props C04 C12
+  ensures result >= 8 && result % 8 == 0
+func PearsonHasher.Len
+  props C04 C12
+  ensures result >= 8 && result % 8 == 0
+func FakeHasher.Len
+  props C04 C12
+  requires !isnil(h.underlying)
+  ensures result >= 8 && result % 8 == 0
 @*/
